@@ -220,6 +220,8 @@ class Computed:
         # we can unsubscribe from everything on each parent
         for parent in self.parents:
             parent.unobserve(All(), All(), self._set_dirty)
+        # forget the remembered values too: only what the next evaluation reads counts
+        self.parents.clear()
 
     def __call__(self):
         global CURRENT_COMPUTED  # noqa: PLW0603
